@@ -12,12 +12,12 @@ RULE = ('point pairs with spherical separation <= 178 deg: random, same parallel
         'exact geodesic from P1 with the returned distance and azimuth ends within 2 mm of P2; reverse azimuth = geodesic '
         'end azimuth + 180 within 1e-8 deg + 2 mm subtended at the distance from the axis; swap and common longitude shift '
         '(+-360, random) change s by <= 1 mm and azimuths by <= 1 mm at the far end; coincident -> 0; no exception.  '
-        'distinct = ellipsoid x family x separation band x distance decade x latitude band')
+        '4 % of the cases are preceded by one or two calls the property does not speak about (nearly antipodal or antipodal pairs, latitudes beyond the poles, NaN, a string; distances beyond half the circumference): not judged, exceptions swallowed, but the judged call after them must be as right as ever.  distinct = ellipsoid x family x separation band x distance decade x latitude band')
 ASSUMPTIONS = ['geod_exact direct solver (self-validated each shard)',
                'lever arm for "moves the far end by 1 mm" = spherical reduced length a|sin(s/a)|']
 N = {'quick': 1200, 'thorough': 20000}
 SHARDS = {'quick': 16, 'thorough': 32}
-REQUIRED_COUNTERS = ['alias_sequences', 'closure_judged', 'reverse_judged', 'swap_judged', 'shift_judged', 'coincident']
+REQUIRED_COUNTERS = ['unjudged_calls_before_a_judged_one', 'alias_sequences', 'closure_judged', 'reverse_judged', 'swap_judged', 'shift_judged', 'coincident']
 
 
 def plan(tier, seed):
@@ -34,6 +34,8 @@ def run_shard(spec, ctx):
     try:
         for i in range(spec['n']):
             case = geowork.gen_inverse_case(rnd)
+            if rnd.random() < 0.04:
+                case['before'] = geowork.gen_unjudged_calls(rnd, rnd.choice(['vincinv', 'vincinv', 'vincinv', 'vincdir']))
             if i < 2:
                 ctx.sample(case)
             geowork.judge_inverse(ns, ctx, case)
